@@ -922,7 +922,7 @@ func (c *Ctx) c01Cache() {
 			return ok && core.CalleeName(call) == "(*sync.Map).Store" && core.Mentions(call.Common().Args[0], fieldNamed("serviceCache"))
 		}
 		notFailed := receiptSuccessEdges(ax)
-		n := c.behindEdges("R01.4", "applyTx", ax, notFailed, isStore, "receipt.Status != FAILED", "service cache fill")
+		n := c.behindEdges("R01.4", "applyTx", ax, notFailed, c.throughHelpers(isStore), "receipt.Status != FAILED", "service cache fill")
 		r.Floor("R01.4", "service cache fills", n, 1)
 	}
 	if rb := c.fn("R01.4", "internal/executor.(*BlockExecutor).rollbackBlocks"); rb != nil {
